@@ -2,11 +2,11 @@
 # seedscript.sh ID CMD... : confirm a script demonstration in the sub-agent's scratch worktree /tmp/seed/ID:
 # reset it to HEAD + patch, run CMD (expect non-zero), reverse the patch, run CMD again (expect zero).
 id=$1; shift
-w=/tmp/seed/$id
+w=${SEEDROOT:-/tmp/seed}/$id
 cd $w || exit 2
-git checkout -q -- . && git apply /tmp/seedout/$id/patch.diff || { echo "cannot prepare worktree"; exit 2; }
+git checkout -q -- . && git apply ${SEEDOUT:-/tmp/seedout}/$id/patch.diff || { echo "cannot prepare worktree"; exit 2; }
 "$@" > /tmp/seedscript-$id-1.log 2>&1; a=$?
-git apply -R /tmp/seedout/$id/patch.diff
+git apply -R ${SEEDOUT:-/tmp/seedout}/$id/patch.diff
 "$@" > /tmp/seedscript-$id-2.log 2>&1; b=$?
 [ $a -ne 0 ] && echo "demo with change: FAIL (expected) exit=$a" || echo "demo with change: PASS (unexpected)"
 [ $b -eq 0 ] && echo "demo without change: PASS (expected)" || { echo "demo without change: FAIL (unexpected) exit=$b"; tail -5 /tmp/seedscript-$id-2.log; }
